@@ -63,6 +63,14 @@ impl InlineCache {
     }
 
     pub(crate) fn set(&self, shape: &Shape, slot: Slot) {
+        #[cfg(boa_verif)]
+        {
+            if crate::verif::ic_disabled() {
+                return;
+            }
+            crate::verif::ic_store_event();
+        }
+
         if self.megamorphic.get() {
             return;
         }
@@ -87,6 +95,11 @@ impl InlineCache {
     ///
     /// Opportunistically cleans up stale weak shape references during lookup.
     pub(crate) fn get(&self, shape: &Shape) -> Option<(Shape, Slot)> {
+        #[cfg(boa_verif)]
+        if crate::verif::ic_disabled() {
+            return None;
+        }
+
         if self.megamorphic.get() {
             return None;
         }
@@ -108,6 +121,9 @@ impl InlineCache {
                 entries.swap_remove(i);
             }
         }
+
+        #[cfg(boa_verif)]
+        crate::verif::ic_event(result.is_some());
 
         result
     }
